@@ -26,6 +26,19 @@ package crhttp
 // option of the RA is dropped from or duplicated in the debug API's answer)
 //@   loop 1 invariant L3 [C17]: len(out.PREF64) == countTag(arr(opts), rangeindex1 + 1, tagOf("*ndp.PREF64")) && len(out.DNSSL) == countTag(arr(opts), rangeindex1 + 1, tagOf("*ndp.DNSSearchList")) && len(out.Prefixes) == countTag(arr(opts), rangeindex1 + 1, tagOf("*ndp.PrefixInformation")) && len(out.RDNSS) == countTag(arr(opts), rangeindex1 + 1, tagOf("*ndp.RecursiveDNSServer")) && len(out.Routes) == countTag(arr(opts), rangeindex1 + 1, tagOf("*ndp.RouteInformation"))
 //@   ensures E1 [C17]: len(result.PREF64) == countTag(arr(opts), len(opts), tagOf("*ndp.PREF64")) && len(result.DNSSL) == countTag(arr(opts), len(opts), tagOf("*ndp.DNSSearchList")) && len(result.Prefixes) == countTag(arr(opts), len(opts), tagOf("*ndp.PrefixInformation")) && len(result.RDNSS) == countTag(arr(opts), len(opts), tagOf("*ndp.RecursiveDNSServer")) && len(result.Routes) == countTag(arr(opts), len(opts), tagOf("*ndp.RouteInformation"))
+// content: the single-valued fields show the last option of their kind; every
+// rendered prefix / DNSSL / RDNSS entry is the rendering of the option it stands for
+//@   loop 1 invariant L4a [C17]: forall(j, 0, rangeindex1 + 1, isType(opts[j], "*ndp.MTU") && countTag(arr(opts), rangeindex1 + 1, tagOf("*ndp.MTU")) == countTag(arr(opts), j + 1, tagOf("*ndp.MTU")) ==> out.MTU == as(opts[j], "*ndp.MTU").MTU)
+//@   loop 1 invariant L4b [C17]: forall(j, 0, rangeindex1 + 1, isType(opts[j], "*ndp.CaptivePortal") && countTag(arr(opts), rangeindex1 + 1, tagOf("*ndp.CaptivePortal")) == countTag(arr(opts), j + 1, tagOf("*ndp.CaptivePortal")) ==> out.CaptivePortal == as(opts[j], "*ndp.CaptivePortal").URI)
+//@   loop 1 invariant L4c [C17]: forall(j, 0, rangeindex1 + 1, isType(opts[j], "*ndp.PrefixInformation") ==> out.Prefixes[countTag(arr(opts), j, tagOf("*ndp.PrefixInformation"))].OnLink == as(opts[j], "*ndp.PrefixInformation").OnLink && out.Prefixes[countTag(arr(opts), j, tagOf("*ndp.PrefixInformation"))].AutonomousAddressAutoconfiguration == as(opts[j], "*ndp.PrefixInformation").AutonomousAddressConfiguration)
+//@   loop 1 invariant L4d [C17]: forall(j, 0, rangeindex1 + 1, isType(opts[j], "*ndp.DNSSearchList") ==> out.DNSSL[countTag(arr(opts), j, tagOf("*ndp.DNSSearchList"))].DomainNames == as(opts[j], "*ndp.DNSSearchList").DomainNames)
+//@   loop 1 invariant L4e [C17]: forall(j, 0, rangeindex1 + 1, isType(opts[j], "*ndp.RecursiveDNSServer") ==> len(out.RDNSS[countTag(arr(opts), j, tagOf("*ndp.RecursiveDNSServer"))].Servers) == len(as(opts[j], "*ndp.RecursiveDNSServer").Servers))
+//@   ensures E2a [C17]: forall(j, 0, len(opts), isType(opts[j], "*ndp.MTU") && countTag(arr(opts), len(opts), tagOf("*ndp.MTU")) == countTag(arr(opts), j + 1, tagOf("*ndp.MTU")) ==> result.MTU == as(opts[j], "*ndp.MTU").MTU)
+//@   ensures E2b [C17]: forall(j, 0, len(opts), isType(opts[j], "*ndp.CaptivePortal") && countTag(arr(opts), len(opts), tagOf("*ndp.CaptivePortal")) == countTag(arr(opts), j + 1, tagOf("*ndp.CaptivePortal")) ==> result.CaptivePortal == as(opts[j], "*ndp.CaptivePortal").URI)
+//@   ensures E2c [C17]: forall(j, 0, len(opts), isType(opts[j], "*ndp.PrefixInformation") ==> result.Prefixes[countTag(arr(opts), j, tagOf("*ndp.PrefixInformation"))].OnLink == as(opts[j], "*ndp.PrefixInformation").OnLink && result.Prefixes[countTag(arr(opts), j, tagOf("*ndp.PrefixInformation"))].AutonomousAddressAutoconfiguration == as(opts[j], "*ndp.PrefixInformation").AutonomousAddressConfiguration)
+//@   ensures E2d [C17]: forall(j, 0, len(opts), isType(opts[j], "*ndp.DNSSearchList") ==> result.DNSSL[countTag(arr(opts), j, tagOf("*ndp.DNSSearchList"))].DomainNames == as(opts[j], "*ndp.DNSSearchList").DomainNames)
+//@   ensures E2e [C17]: forall(j, 0, len(opts), isType(opts[j], "*ndp.RecursiveDNSServer") ==> len(result.RDNSS[countTag(arr(opts), j, tagOf("*ndp.RecursiveDNSServer"))].Servers) == len(as(opts[j], "*ndp.RecursiveDNSServer").Servers))
+//@   loop 2 invariant L5 [C17]: len(servers) == rangeindex2 + 1 && isType(opts[rangeindex1 + 1], "*ndp.RecursiveDNSServer") && ranged(2) == as(opts[rangeindex1 + 1], "*ndp.RecursiveDNSServer").Servers
 //@   loop 2 invariant L2 [C17]: 0 <= rangeindex2 + 1 && rangeindex2 + 1 <= len(ranged(2)) && 0 <= rangeindex1 + 1 && rangeindex1 + 1 < len(opts)
 //@   opt safety [C17]
 //@   opt frame [C17]
